@@ -170,7 +170,10 @@ C01_ClassBodies ==
   {<<x>> : x \in ClsLeaves} \cup {<<x, Cls("any")>> : x \in {Anc("wordstart"), Anc("wordend"), NotAnc("wordstart"), NotAnc("wordend")}}
     \cup {<<Cls("any"), x>> : x \in {Anc("wordstart"), Anc("wordend"), Anc("lineend"), Anc("linestart")}}
     \cup { <<In(<<Rng(<<48>>, <<57>>)>>)>>, <<In(<<Rng(<<65>>, <<90>>), Lit(<<95>>)>>)>>, <<NotIn(<<Rng(<<97>>, <<122>>), Cls("digit")>>)>>,
-           <<CiLit(<<bA>>)>>, <<CiLit(<<122>>), CiLit(<<90>>)>>, <<CiLit(<<64>>)>>, <<NotLit(<<10>>)>>, <<Cls("whitespace"), NotCls("whitespace")>> }
+           <<CiLit(<<bA>>)>>, <<CiLit(<<122>>), CiLit(<<90>>)>>, <<CiLit(<<64>>)>>, <<NotLit(<<10>>)>>, <<Cls("whitespace"), NotCls("whitespace")>>,
+           \* ranges whose bounds have different lengths: every length from the longer bound's down to the shorter's is tried
+           <<In(<<Rng(<<97>>, <<122, 122>>)>>)>>, <<In(<<Rng(<<48>>, <<57, 57>>)>>)>>, <<Cls("any"), In(<<Rng(<<97>>, <<122, 122>>)>>)>>,
+           <<NotIn(<<Rng(<<97>>, <<122, 122>>)>>)>> }
 
 (* ===================================================================== C02 *)
 C02_Bodies ==
@@ -309,7 +312,8 @@ C05_Withs ==
 (* ===================================================================== C06 *)
 C06_Withs == { <<WStr(<<>>)>>, <<WStr(<<120>>)>>, <<WStr(<<120, 121, 122>>)>>, <<WName("value"), WName("value")>>,
                <<WName("matchNumber")>>, <<WName("nosuchname")>>,      \* the last one names nothing: the match is deleted
-               <<WStr(<<195, 169>>)>>, <<WStr(<<226, 130, 172, 120>>), WName("value")>> }   \* offsets are counted in bytes, also after a multi-byte replacement
+               <<WStr(<<195, 169>>)>>, <<WStr(<<226, 130, 172, 120>>), WName("value")>>,
+               <<WName("value")>> }      \* the identity replacement: NEW still (re)creates the .vored file   \* offsets are counted in bytes, also after a multi-byte replacement
 C06_Bodies == { <<La>>, <<Lab>>, <<Loop(1, -1, FALSE, La)>>, <<Cls("any")>>, <<Lit(<<bc>>)>> }
 
 (* ===================================================================== C13 *)
